@@ -1515,3 +1515,101 @@ func (s *signer) trueImpliesLen(g *ssa.Function, pi int, n int64) bool {
 	s.lenMemo[key] = 3
 	return false
 }
+
+// checkRuneIndexBounds — R05.17: a character position is checked against the number of characters.
+// Where a render- or parse-reachable function indexes []rune(s) with a non-constant index, some
+// comparison on the way relates that index (or the value it was computed from) to the length of
+// that rune slice — len(runes) or utf8.RuneCountInString — and not merely to len(s): the byte
+// length is larger for every non-ASCII string, so an index between the two passes the test and
+// the indexing panics.
+func checkRuneIndexBounds(w *World, r *Report) {
+	reach := w.renderReachable()
+	for f := range w.parseReachable() {
+		reach[f] = true
+	}
+	n := 0
+	for _, fn := range w.pkgFuncs() {
+		if !reach[fn] {
+			continue
+		}
+		instrsOf(fn, func(in ssa.Instruction) {
+			ia, ok := in.(*ssa.IndexAddr)
+			if !ok {
+				return
+			}
+			if _, isConst := ia.Index.(*ssa.Const); isConst {
+				return
+			}
+			var runes ssa.Value
+			for _, o := range originChain(ia.X) {
+				if cv, ok := o.(*ssa.Convert); ok {
+					if sl, ok := cv.Type().Underlying().(*types.Slice); ok {
+						if bt, ok := sl.Elem().Underlying().(*types.Basic); ok && bt.Kind() == types.Int32 && isString(cv.X.Type()) {
+							runes = cv
+						}
+					}
+				}
+			}
+			if runes == nil {
+				return
+			}
+			// loops `for i := range runes` / `for i := 0; i < len(runes); i++` and reversed forms
+			// compare the index with len(runes) too, so one test covers them
+			isRuneLen := func(v ssa.Value) bool {
+				seen := map[ssa.Value]bool{}
+				var walk func(v ssa.Value, d int) bool
+				walk = func(v ssa.Value, d int) bool {
+					v = unspill(v)
+					if v == nil || seen[v] || d > 4 {
+						return false
+					}
+					seen[v] = true
+					switch x := v.(type) {
+					case *ssa.Call:
+						if b, ok := x.Call.Value.(*ssa.Builtin); ok && b.Name() == "len" && len(x.Call.Args) == 1 {
+							for _, o := range originChain(x.Call.Args[0]) {
+								if o == runes {
+									return true
+								}
+							}
+						}
+						if g := x.Call.StaticCallee(); g != nil && g.Pkg != nil && g.Pkg.Pkg.Path() == "unicode/utf8" && strings.HasPrefix(g.Name(), "RuneCount") {
+							return true
+						}
+					case *ssa.BinOp:
+						return walk(x.X, d+1) || walk(x.Y, d+1)
+					case *ssa.Phi:
+						for _, e := range x.Edges {
+							if walk(e, d+1) {
+								return true
+							}
+						}
+					}
+					return false
+				}
+				return walk(v, 0)
+			}
+			tested := false
+			instrsOf(fn, func(in2 ssa.Instruction) {
+				bo, ok := in2.(*ssa.BinOp)
+				if !ok {
+					return
+				}
+				switch bo.Op {
+				case token.LSS, token.LEQ, token.GTR, token.GEQ, token.EQL, token.NEQ:
+					if isRuneLen(bo.X) || isRuneLen(bo.Y) {
+						tested = true
+					}
+				}
+			})
+			n++
+			construct := "index into []rune(" + describe(runes.(*ssa.Convert).X) + ")"
+			if tested {
+				r.ok("R05.17", ssaName(fn), construct, w.posOf(ia.Pos()), "the function compares against the rune count", false)
+			} else {
+				r.bad("R05.17", ssaName(fn), construct, w.posOf(ia.Pos()), "no comparison in the function involves the number of characters (len of the rune slice, utf8.RuneCount…): a test against the byte length lets through every index between the character count and the byte count of a non-ASCII string, and the indexing panics")
+			}
+		})
+	}
+	r.Counts["non-constant indexes into []rune(s)"] = n
+}
